@@ -391,7 +391,19 @@ class Evaluator:
         """Candidate values for a numeric quantifier in the exact sub-fragment:
         the variable occurs only in count atoms (generator invariant).  Truth is
         then constant beyond max(node count) + 1."""
-        return range(0, len(self.nodes) + 2)
+        # ... or in comparisons of (str.to.int var) with integer literals: truth is
+        # constant beyond max(all counts, all literals) + 1
+        biggest = [0]
+
+        def walk(t):
+            if isinstance(t, list):
+                if len(t) == 2 and t[0] == "i" and isinstance(t[1], int):
+                    biggest[0] = max(biggest[0], abs(t[1]))
+                for x in t:
+                    walk(x)
+
+        walk(body)
+        return range(0, len(self.nodes) + biggest[0] + 3)
 
     def eval(self, f, env: Optional[Dict[str, Any]] = None) -> bool:
         if env is None:
